@@ -153,6 +153,26 @@ def summarise_return(I, env, v):
             if (v.lo or 0) == 0 and not v.pre:
                 first = first | frozenset()
         nonascii = allcls - S.ASCII
+        covered = set()
+        algs = set()
+        for f in env.facts:
+            if isinstance(f, tuple) and f and f[0] == 'cov':
+                covered.update(f[3:])
+                if f[1] in I.ALG_MODULES:
+                    algs.add(f[1])
+        uncovered = []
+        from .strops import DERIVED
+        for i, c in enumerate(cells):
+            if isinstance(c, frozenset) or c in covered:
+                continue
+            ex = B.exact_chars(env.cls(c))
+            if ex is not None and len(ex) <= 1:
+                continue
+            d = DERIVED.get(c)
+            srcs = [p for p, _inv in (d if isinstance(d, list) else [d])] if d else []
+            if srcs and all(p in covered for p in srcs):
+                continue
+            uncovered.append((i if v.fixed or i < len(v.pre) else i - len(cells), B.describe(env.cls(c))[:30]))
         cats = set()
         import unicodedata as _u
         for b in nonascii:
@@ -162,7 +182,12 @@ def summarise_return(I, env, v):
         return {'kind': 'str', 'lo': v.lo or 0, 'hi': v.hi, 'ws_first': bool(first & S.WS), 'ws_last': bool(last & S.WS),
                 'ws_first_desc': B.describe(first & S.WS)[:60] if first & S.WS else '', 'ws_last_desc': B.describe(last & S.WS)[:60] if last & S.WS else '',
                 'nonascii': sorted(nonascii), 'nonascii_cats': sorted(cats), 'nonascii_chars': ''.join(sorted(B.sample[b] for b in nonascii))[:300], 'nonascii_desc': B.describe(nonascii)[:80] if nonascii else '',
-                'imprecise': bool(v.imprecise), 'desc': S.describe(env, v)[:160]}
+                'imprecise': bool(v.imprecise), 'desc': S.describe(env, v)[:160],
+                'uncovered': uncovered, 'algorithms': sorted(algs), 'fixed': v.fixed,
+                'vacuous': sorted('%s.%s' % (f[1], f[2]) for f in env.facts if isinstance(f, tuple) and f and f[0] == 'vacuous'),
+                'input_uncovered': [list(f[1]) for f in env.facts if isinstance(f, tuple) and f and f[0] == 'uncov'],
+                'input_desc': [f[2] for f in env.facts if isinstance(f, tuple) and f and f[0] == 'uncov'],
+                'shape': [(''.join(sorted(B.exact_chars(env.cls(c)))) if B.exact_chars(env.cls(c)) is not None else None) for c in cells] if v.fixed else None}
     if isinstance(v, Maybe):
         return {'kind': 'union', 'alts': [summarise_return(I, env, a) for a in v.alts], 'desc': repr(v)[:120]}
     if v is NONE:
@@ -628,6 +653,27 @@ def analyse_wrappers(jobs_list, jobs=None):
     return _pool_map(_wrapper_worker, list(jobs_list), jobs)
 
 
+def validate_with_options(mn, assignment):
+    """Return summaries of validate() for one concrete assignment of its options (not cached)."""
+    I = get_interp()
+    prog = I.prog
+    r = prog.resolve_name(prog.mods[mn], 'validate')
+    fnode = prog.mods[r[1]].funcs[r[2]]
+    env = Env()
+    I.ctx.scopes = [[]]
+    I.ctx.stack = [(mn, '<entry>')]
+    I.closures = []
+    I.memo = {}
+    full = {}
+    for a in option_assignments(fnode):
+        full = dict(a)
+        break
+    full.update(assignment)
+    args = concrete_args(I, fnode, env, TOP, full)
+    outs = I.call_func(Func(r[1], r[2]), args, {}, fnode, env, multi=True)
+    return [summarise_return(I, e, v) for e, v in outs] if isinstance(outs, list) else []
+
+
 def _pool_map(fn, items, jobs):
     if jobs <= 1 or len(items) <= 2:
         return [fn(x) for x in items]
@@ -638,7 +684,7 @@ def _pool_map(fn, items, jobs):
 
 def analyse_validate(names=None, jobs=None, use_cache=True):
     jobs = jobs or min(16, os.cpu_count() or 1)
-    key = tree_digest('validate-v1')
+    key = tree_digest('validate-v4')
     cpath = os.path.join(os.environ.get('SA_CACHE', os.path.join(VERIF, '.cache')), 'validate-%s.pkl' % key[:20])
     if use_cache and names is None and os.path.exists(cpath):
         try:
